@@ -24,6 +24,8 @@ pub enum Op {
     Iterate { k: usize, reuse: bool },
     Optimise { lsu: bool, maximise: bool, objective: Term, reuse: bool },
     QueryBounds,
+    /// a satisfy call (under one assumption if given) whose termination condition fires at poll `stop_at`
+    Interrupted { stop_at: u64, assume: Option<Pred> },
 }
 
 #[derive(Clone, Debug, Serialize, Deserialize)]
@@ -135,7 +137,8 @@ impl Property for HistProp {
                             None => Op::QueryBounds,
                         },
                         6 => Op::AddClause(build_assumptions(&m, ra)),
-                        7..=9 => Op::Satisfy { reuse },
+                        7 | 8 => Op::Satisfy { reuse },
+                        9 => Op::Interrupted { stop_at: (*k as u64 / 3) % 6, assume: if k % 2 == 0 { build_assumptions(&m, ra).into_iter().next() } else { None } },
                         10 | 11 => Op::Assume { preds: build_assumptions(&m, ra), extract: k % 2 == 0, reuse },
                         12 | 13 => Op::Iterate { k: (*k as usize / 4) % 4, reuse },
                         14 => Op::Optimise { lsu: k % 2 == 0, maximise: k % 4 < 2, objective: build_objective(&m, robj), reuse },
@@ -274,6 +277,51 @@ impl Property for HistProp {
                                 fail!("wrong:bound-excludes-solution", "variable {i} has bounds [{lb}, {ub}] but {:?} is a solution", s);
                             }
                         }
+                    }
+                }
+                Op::Interrupted { stop_at, assume } => {
+                    // the call may be cut short at any poll: it answers Unknown, or correctly; either way the
+                    // solver stays usable for everything that follows
+                    out.classes.push("interrupted_solve".into());
+                    let mut t = CountingTermination::stop_at(*stop_at, BUDGET);
+                    let mut br = b.brancher(&case.cfg.brancher);
+                    match assume {
+                        None => match satisfy(&mut b, &mut br, &mut t) {
+                            SatRes::Sat(a) => {
+                                if let Some(why) = sem::first_violation(&acc, &a) {
+                                    fail!("wrong:stale-or-invalid-solution", "Satisfiable({:?}): {}", a, why);
+                                }
+                            }
+                            SatRes::Unsat => {
+                                if !sols.is_empty() {
+                                    fail!("wrong:unsat-but-sat", "Unsatisfiable (interrupted call) but the accumulated model has {} solutions", sols.len());
+                                }
+                                infeasible_reported = true;
+                            }
+                            SatRes::Unknown => {}
+                        },
+                        Some(p) => match satisfy_under_assumptions(&mut b, &mut br, &mut t, std::slice::from_ref(p), false) {
+                            AssRes::Sat(a) => {
+                                if let Some(why) = sem::first_violation(&acc, &a) {
+                                    fail!("wrong:stale-or-invalid-solution", "Satisfiable({:?}) under an assumption: {}", a, why);
+                                }
+                                if !p.holds(a[p.var] as i64) {
+                                    fail!("wrong:assumption-violated", "solution {:?} violates the assumption {:?}", a, p);
+                                }
+                            }
+                            AssRes::UnsatUnderAssumptions(_) => {
+                                if sols.iter().any(|s| p.holds(s[p.var] as i64)) {
+                                    fail!("wrong:unsat-under-assumptions-but-sat", "the assumption {:?} is satisfiable", p);
+                                }
+                            }
+                            AssRes::Unsat => {
+                                if !sols.is_empty() {
+                                    fail!("wrong:unsat-but-sat", "Unsatisfiable (interrupted assumption call) but the accumulated model has {} solutions", sols.len());
+                                }
+                                infeasible_reported = true;
+                            }
+                            AssRes::Unknown => {}
+                        },
                     }
                 }
                 Op::Satisfy { .. } => {
